@@ -624,6 +624,28 @@ def run_task(task):
             return res
         if kind == "opt":
             from vlib import optrun
+            from vlib.afterfail import after_failures
+            import decimal
+            E = c.encrypt
+            bad = [lambda: E.interleave(None), lambda: E.deinterleave("ab"), lambda: E.flip_msb(b"ab"), lambda: E.flip_msb(7),
+                   lambda: E.swap_multiples(bytearray(b"abc"), -1), lambda: E.swap_multiples(bytearray(b"abc"), None),
+                   lambda: E.swap_multiples(bytearray(b"abc"))]
+            with decimal.localcontext() as ctx_:
+                ctx_.prec = 2
+                for x in (bytes(range(1, 40)), bytes([0, 128, 3, 6, 9, 255, 0, 12]) * 9):
+                    def good(x=x):
+                        out = []
+                        for fn, a in ((E.interleave, ()), (E.deinterleave, ()), (E.flip_msb, ()), (E.swap_multiples, (3,)), (E.swap_multiples, (128,))):
+                            b = bytearray(x)
+                            fn(b, *a)
+                            out.append(bytes(b))
+                        return out
+                    got = after_failures(bad, good)
+                    exp = [m_interleave(x), m_deinterleave(x), m_flip(x), m_swap(x, 3), m_swap(x, 128)]
+                    if got != ("ok", exp):
+                        raise Violation("independent_of_call_history", {"op": "after_failed_calls", "hex": x.hex()}, "models",
+                                        str(got)[:200], "valid calls after calls that raised")
+            res.extra["calls_after_failed_calls"] = 2
             xs = [bytes((i * 13 + k) % 256 for i in range(n)) for n in (0, 1, 2, 3, 6, 7, 64, 255) for k in (0, 3, 128)]
             jobs = []
             for x in xs:
@@ -632,7 +654,7 @@ def run_task(task):
                 for m in (0, 1, 3, 7, 256, -2):
                     jobs.append({"fn": "swap_multiples", "arg": x.hex(), "m": m})
             model = {"interleave": m_interleave, "deinterleave": m_deinterleave, "flip_msb": m_flip}
-            for flag in ("-O", "-OO", "-Werror", "first_use", "first_use", "first_use", "first_use"):
+            for flag in ("-O", "-OO", "-Werror", "-bb", "-Xdev", "first_use", "first_use", "first_use", "first_use"):
                 # "first_use": the jobs are the library's first calls in a fresh interpreter, from 8 threads at once
                 got = optrun.run(jobs, flag) if flag != "first_use" else optrun.run(jobs, "-B", threads=8)
                 for job, g in zip(jobs, got):
